@@ -443,6 +443,11 @@ StimSet(q) ==
     \* (the name derived from the method, which a forwarded rename replaces, is the `near` spelling above: no wire name any more)
     \* flat struct messages at every entry point
   \cup {St(e, "flat", M(q, x).kind, "exact", q.parts[x[1]].id, M(q, x).name, 1) : x \in StructMs(q), e \in Eps(q)}
+    \* ... and *tagged* with the name of their handler, the way the messages of the other kinds are written, at the entry points of those
+    \* kinds (C04: no such document reaches an instantiate or migrate handler; where a handler of that kind carries the same name the
+    \* document is that handler's own message and is left out)
+  \cup {St(e, "obj1", M(q, x).wire, "exact", q.parts[x[1]].id, M(q, x).name, 1) :
+           x \in {y \in StructMs(q) : \A z \in EnumMs(q) : M(q, z).wire # M(q, y).wire /\ M(q, z).name # M(q, y).name}, e \in Eps(q) \cap EnumKinds}
     \* unknown names and degenerate shapes
   \cup {St(e, "obj1", "zz_unknown", "exact", "", "", 0) : e \in Eps(q)}
   \cup {St(e, "obj1", "zz_unknown", b, "", "", 0) : e \in Eps(q) \cap EnumKinds, b \in LongBodies}
